@@ -5,6 +5,7 @@ import (
 	"sync"
 
 	"github.com/elliotchance/orderedmap/v3"
+	"github.com/mitchellh/hashstructure/v2"
 	"gopkg.in/yaml.v3"
 
 	"github.com/go-task/task/v3/errors"
@@ -32,6 +33,18 @@ func NewVars(els ...*VarElement) *Vars {
 		vars.Set(el.Key, el.Value)
 	}
 	return vars
+}
+
+// Hash implements hashstructure.Hashable. The fields of Vars are unexported and
+// would otherwise be skipped, so a task's hash (run: when_changed) would not
+// depend on variables that only reach its env or the vars of its sub-calls.
+// The order of the variables is not part of the hash.
+func (vars *Vars) Hash() (uint64, error) {
+	m := make(map[string]Var, vars.Len())
+	for k, v := range vars.All() {
+		m[k] = v
+	}
+	return hashstructure.Hash(m, hashstructure.FormatV2, nil)
 }
 
 // Len returns the number of variables in the Vars map.
